@@ -488,6 +488,23 @@ func (c *concRun) runClient(ci int, ops []Op) {
 			c.cUpload(ci, repo, o, op)
 		case "cancelget":
 			c.cCancelled(ci, repo, op)
+		case "mount":
+			// cross-repository mount: one handler holds two repositories. The blob may be missing in the source
+			// (the registry then opens a session, which the client cancels)
+			d := o.digest("")
+			if op.S == "missing" {
+				d = digestOf("sha256", []byte("never pushed "+repo))
+			}
+			q := url.Values{}
+			q.Set("mount", d)
+			q.Set("from", w.repoName(op.From))
+			r := w.do(reqSpec{method: "POST", path: "/v2/" + repo + "/blobs/uploads/", query: q.Encode(), repos: []string{repo, w.repoName(op.From)}})
+			if r.Code == 202 {
+				if u, err := url.Parse(r.H.Get("Location")); err == nil {
+					w.do(reqSpec{method: "DELETE", path: u.EscapedPath(), repos: []string{repo}})
+				}
+			}
+			w.x.out.probe("conc-mount")
 		case "sleep":
 			simrt.Sleep(time.Duration(op.Ms) * time.Millisecond)
 		case "gc":
@@ -990,8 +1007,11 @@ func planC12(prop string, seed uint64, tier string, idx int) *Plan {
 			case 7:
 				ops = append(ops, Op{K: "sleep", Ms: int64(g.r.pick(1, int(grace/2)+1, int(grace)+1, int(grace*2)+1))})
 			case 8:
-				// cross-repository mount: two repositories held by one handler
-				ops = append(ops, Op{K: "man", Repo: repo, Obj: cg.imgs[g.r.intn(len(cg.imgs))], Tag: g.r.str("", "t1")})
+				if g.r.chance(50) {
+					ops = append(ops, Op{K: "mount", Repo: repo, From: g.r.intn(g.nrepos()), Obj: cg.blobs[g.r.intn(len(cg.blobs))], S: g.r.str("", "missing", "missing")})
+				} else {
+					ops = append(ops, Op{K: "man", Repo: repo, Obj: cg.imgs[g.r.intn(len(cg.imgs))], Tag: g.r.str("", "t1")})
+				}
 			default:
 				ops = append(ops, cg.clientOps(1, "")...)
 			}
